@@ -350,6 +350,11 @@ func step(c *core.Ctx, cp *crcPkg) *types.Var {
 	// index = low 8 bits of (crc ^ b)
 	var bexpr ast.Expr
 	ie := ast.Unparen(idx.Index)
+	if o := objOf(info, ie); o != nil { // idx := byte(crc) ^ b, named before the lookup
+		if rhs, other := defsOf(info, fn.Decl.Body, o); len(rhs) == 1 && other == 0 && rhs[0] != nil {
+			ie = ast.Unparen(rhs[0])
+		}
+	}
 	mask8 := width(info, ie) == 8
 	e := strip(info, ie)
 	if be, ok := e.(*ast.BinaryExpr); ok && be.Op == token.AND {
